@@ -523,3 +523,19 @@ func CoarseSetup() {
 
 // AllowGuardian is the AllowBlocked entry for the system's context-guardian goroutine.
 const AllowGuardian = "go@system.go"
+
+// CoarseSetupSends additionally makes every mailbox Enqueue a switch point, so that another
+// actor can run between two sends of one handler.
+func CoarseSetupSends() {
+	CoarseSetup()
+	vrt.SwitchOnEnter("mailbox.(*UnboundedMailbox).Enqueue")
+	vrt.SwitchOnEnter("actor.(*eventStream).Publish")
+}
+
+// CoarseSends is Coarse plus a switch point right after a mailbox elects a new processing
+// goroutine (i.e. right after a send to an idle actor).
+func CoarseSends(stepBudget int) vrt.Config {
+	c := Coarse(stepBudget)
+	c.SwitchOnSpawn = true
+	return c
+}
